@@ -129,7 +129,7 @@ def declare(rep):
     rep.rule("C17.c", "per layer: get_configuration() returns the constructing configuration field by field; get_backend() reaches the inner layer", floor=12)
 
 
-def run(rep, tier):
+def harnesses(tier):
     hs = [h_pack(n) for n in (1, 2, 3, 5)]
     hs += [h_pack_for(d) for d in range(1, 11)]
     Ns = (1, 2, 3) if tier == "quick" else (1, 2, 3, 4)
@@ -142,7 +142,13 @@ def run(rep, tier):
             hs.append(h_layer("affine", N, "float" if N % 2 else "double", how))
             hs.append(h_layer("constant", N, "float", how))
         hs.append(h_layer("hilbert", 2, "size_t", how))
-    harness.build(hs, "c17", per_tu=10)
+    return hs
+
+
+def run(rep, tier):
+    hs = harnesses(tier)
+    from .c14_hilbert import OPAQUE
+    harness.build(hs, "c17", per_tu=10, includes=OPAQUE)
     for h in hs:
         kind = h.meta["kind"]
         inst = h.name
@@ -154,7 +160,7 @@ def run(rep, tier):
         s = ir.Sym(h.func)
         if s.unknown:
             raise AnalysisBroken("C17 %s: unmodelled instruction %s at %s" % (inst, s.unknown[0]["op"], ir.where(s.unknown[0])))
-        if s.calls:
+        if any(not (c.name or "").startswith(("_ZN6covfie7utility10round_pow2", "_ZN6covfie7utility4ipow")) for c in s.calls):
             raise AnalysisBroken("C17 %s: unexpected call %s in a configuration harness" % (inst, s.calls[0].dname))
         if kind == "pack":
             outs = s.outputs(h.out_index)
